@@ -443,7 +443,8 @@ def gen_spec(rng, cfg: dict | None = None) -> dict:
     def meta(p=0.3):
         m = {}
         if meta_on and rng.random() < p:
-            m['user'] = rng.choice(['A thing.', 'Something else', 'x y z', ''])
+            m['user'] = rng.choice(['A thing.', 'Something else', 'x y z', '', 'C:\\temp\\new',
+                                    '\\\\server\\share', 'tab\\there \\u2013 dash'])
         if meta_on and rng.random() < p / 2:
             m['developer'] = rng.choice(['note', 'todo: fix'])
         return m
